@@ -346,9 +346,17 @@ func prepareCorrectionOptions(o *CorrectionOptions, opts ...schema.Option) error
 		row(o)
 	}
 
-	// Copy over the stamps from the previous header
+	// Copy over the stamps from the previous header. They must be real
+	// copies: decoding raw option data below reuses the elements already in
+	// the list and would otherwise overwrite the source header's stamps.
 	if o.Head != nil && len(o.Head.Stamps) > 0 {
-		o.Stamps = append(o.Stamps, o.Head.Stamps...)
+		for _, s := range o.Head.Stamps {
+			if s == nil {
+				continue
+			}
+			sc := *s
+			o.Stamps = append(o.Stamps, &sc)
+		}
 	}
 
 	// If we have a raw json object, this will override any of the other options
